@@ -5,6 +5,8 @@ import LithiumModel.Proto
 import LithiumModel.Load
 import LithiumModel.World
 import LithiumModel.Minimize
+import LithiumModel.Interest
+import LithiumModel.TempDir
 
 namespace Dispatch
 open Proto
@@ -187,6 +189,56 @@ def cmdPow2 (s : String) : String :=
   | some i => if Util.isPowerOfTwo i then "1" else "0"
   | none => "bad-op"
 
+/-! ### interestingness tests, temp dir -/
+
+def encStatus : Interest.ExitStatus → String
+  | .normal => "NORMAL"
+  | .abnormal => "ABNORMAL"
+  | .crash => "CRASH"
+  | .timeout => "TIMEOUT"
+
+def cmdClassify (to rc : String) : String :=
+  match rc.toInt? with
+  | some rc =>
+    let t := to == "1"
+    let c := Interest.classify t rc
+    let r := match c.2 with | some x => toString x | none => "N"
+    s!"{encStatus c.1} {r} {if Interest.crashesInteresting t rc then 1 else 0} {if Interest.hangsInteresting t rc then 1 else 0}"
+  | none => "bad-op"
+
+def decRun (rc out err : String) : Option Interest.RunData := do
+  let rc ← decOptInt rc
+  pure { rc := rc, out := ← decBytes out, err := ← decBytes err }
+
+def strOfBytes (b : Bytes) : Option String := String.fromUTF8? (ByteArray.mk b.toArray)
+
+def cmdRepeatArgs (cookie i args : String) : String :=
+  match decBytes cookie, i.toNat?, decList args with
+  | some c, some i, some l =>
+    match strOfBytes c, l.mapM strOfBytes with
+    | some c, some l => encList ((Interest.repeatArgs c l i).map (fun s => s.toUTF8.toList))
+    | _, _ => "bad-op"
+  | _, _, _ => "bad-op"
+
+def decNats (s : String) : Option (List Nat) :=
+  if s == "." then some [] else (s.splitOn ",").mapM String.toNat?
+
+def cmdTempdir (taken fault : String) : String :=
+  match decNats taken with
+  | some t =>
+    let f : Nat → Option Nat := match fault.toNat? with | some e => fun _ => some e | none => fun _ => none
+    match TempDir.createTempDir t f with
+    | .ok n => s!"ok {n}"
+    | .error e => s!"err {e}"
+  | none => "bad-op"
+
+def cmdTempdirConc (taken k sched : String) : String :=
+  match decNats taken, k.toNat?, decNats sched with
+  | some t, some k, some sc =>
+    let s := TempDir.runSchedule (TempDir.initSys t k) sc
+    ",".intercalate (s.procs.map (fun p => match p.got with | some n => toString n | none => "-"))
+  | _, _, _ => "bad-op"
+
 def step (line : String) : String :=
   match line.splitOn " " with
   | ["lines", d] =>
@@ -199,6 +251,29 @@ def step (line : String) : String :=
   | ["strategy", name, cfg, b, p, r, a, verdicts, clock] => cmdStrategy name cfg b p r a verdicts clock
   | ["summary", name, cfg, b, p, r, a, verdicts, clock] => cmdSummary name cfg b p r a verdicts clock
   | ["pow2", i] => cmdPow2 i
+  | ["classify", to, rc] => cmdClassify to rc
+  | ["outputs", regex, sv, out, err, rxo, rxe] =>
+    (match decBytes sv, decBytes out, decBytes err with
+     | some sv, some o, some e =>
+       let rx : Bytes → Bool := fun d => if d == o then rxo == "1" else rxe == "1"
+       let m := Interest.outputsMem (regex == "1") rx sv o e
+       let f := Interest.outputsFile (regex == "1") rx sv o e
+       s!"{if m then 1 else 0} {if f then 1 else 0}"
+     | _, _, _ => "bad-op")
+  | ["diff", ra, oa, ea, rb, ob, eb] =>
+    (match decRun ra oa ea, decRun rb ob eb with
+     | some a, some b => if Interest.diffTest a b then "1" else "0"
+     | _, _ => "bad-op")
+  | ["repeat", n, verdicts] =>
+    (match n.toNat? with
+     | some n =>
+       let l := verdicts.toList
+       let r := Interest.repeatTest n (fun i => l.getD (i - 1) '0' == '1')
+       s!"{if r.1 then 1 else 0} {r.2}"
+     | none => "bad-op")
+  | ["repeatargs", cookie, i, args] => cmdRepeatArgs cookie i args
+  | ["tempdir", taken, fault] => cmdTempdir taken fault
+  | ["tempdir-conc", taken, k, sched] => cmdTempdirConc taken k sched
   | ["lp2", n] => (n.toNat?.map (fun n => toString (Util.lp2 n))).getD "bad-op"
   | ["divup", a, b] =>
     (match a.toNat?, b.toNat? with
